@@ -62,7 +62,7 @@ Definition gc_check_range (cf : cfg) (b : bucket) (s e days now : Z) : rangeres 
 
 (* ---------------------------------------------------------------- pass *)
 Definition clear_hint_chunk (b : bucket) (c : nat) : bucket :=
-  set_hints b (upd (b_hints b) c hchunk0) (b_hmax b) (b_maxdumped b).
+  set_hints b (updd hchunk0 (b_hints b) c hchunk0) (b_hmax b) (b_maxdumped b).
 
 (* getItemCollision: in-memory hint buffers only, newest first; (item, chunk, collision) *)
 Definition buf_get_coll (l : list hitem) (h : N) (key : bytes) : option hitem * bool :=
@@ -224,7 +224,7 @@ Definition remove_merged (b : bucket) : bucket :=
 
 Definition force_rotate (b : bucket) : bucket :=
   let hc := hchunk_at b (b_hmax b) in
-  set_hints b (upd (b_hints b) (b_hmax b) (mkHC (hc_splits hc ++ [split0]) (hc_active hc))) (b_hmax b) (b_maxdumped b).
+  set_hints b (updd hchunk0 (b_hints b) (b_hmax b) (mkHC (hc_splits hc ++ [split0]) (hc_active hc))) (b_hmax b) (b_maxdumped b).
 
 Definition before_bucket (cf : cfg) (b : bucket) (merge : bool) : bucket :=
   let b1 :=
